@@ -877,7 +877,12 @@ class World(object):
             args['raw'] = True
         if ncb:
             args['callbacks'] = cbs
-        if op.get('cfg') is not None and self.configs:
+        if op.get('cfg') is not None and self.configs and op.get('cfg_as_template'):
+            # an unusual but accepted argument: a Config object given as `template=` (the pinned code takes
+            # templates from Fxp objects only and ignores it: the new object gets the defaults and keywords)
+            args['template'] = self.configs[op['cfg'] % len(self.configs)]
+            self.bump('config_object_given_as_template')
+        elif op.get('cfg') is not None and self.configs:
             args['config'] = self.configs[op['cfg'] % len(self.configs)]
             st.extra['cfg'] = op['cfg'] % len(self.configs)
             self.bump('caller_config_used')
